@@ -189,6 +189,44 @@ func matchSpec(fn *ssa.Function, in ssa.Instruction, spec string, selSend map[*s
 		return derivesFromField(fn, c.Common().Args[0], arg, 0)
 	case "select-send-branch":
 		return selSend[in.Block()] && firstReal(in.Block()) == in
+	case "select-recv-branch":
+		// the first instruction of the block entered when a select chose the receive from the named channel
+		return selectRecvBlocks(fn, arg)[in.Block()] && firstReal(in.Block()) == in
+	case "select":
+		_, ok := in.(*ssa.Select)
+		return ok
+	case "go-arg":
+		// a go statement that is handed the named value as an argument (or captures it)
+		g, ok := in.(*ssa.Go)
+		if !ok {
+			return false
+		}
+		for _, a := range g.Call.Args {
+			if valueName(fn, a) == arg {
+				return true
+			}
+		}
+		if mc, ok := g.Call.Value.(*ssa.MakeClosure); ok {
+			for _, b := range mc.Bindings {
+				if valueName(fn, b) == arg {
+					return true
+				}
+			}
+		}
+		return false
+	case "store-var":
+		// a store to the named local or captured variable
+		st, ok := in.(*ssa.Store)
+		if !ok {
+			return false
+		}
+		switch a := st.Addr.(type) {
+		case *ssa.Alloc:
+			return a.Comment == arg
+		case *ssa.FreeVar:
+			return a.Name() == arg
+		}
+		return false
 	}
 	return false
 }
@@ -396,4 +434,38 @@ func inMapRangeLoop(fn *ssa.Function, blk *ssa.BasicBlock) bool {
 		}
 	}
 	return false
+}
+
+// selectRecvBlocks: blocks entered exactly when a select chose the receive from the named channel.
+func selectRecvBlocks(fn *ssa.Function, ch string) map[*ssa.BasicBlock]bool {
+	out := map[*ssa.BasicBlock]bool{}
+	for _, b := range fn.Blocks {
+		for _, in := range b.Instrs {
+			ifi, ok := in.(*ssa.If)
+			if !ok {
+				continue
+			}
+			bo, ok := ifi.Cond.(*ssa.BinOp)
+			if !ok || bo.Op != token.EQL {
+				continue
+			}
+			ex, ok := bo.X.(*ssa.Extract)
+			if !ok || ex.Index != 0 {
+				continue
+			}
+			sel, ok := ex.Tuple.(*ssa.Select)
+			if !ok {
+				continue
+			}
+			c, ok := bo.Y.(*ssa.Const)
+			if !ok {
+				continue
+			}
+			k := int(c.Int64())
+			if k >= 0 && k < len(sel.States) && sel.States[k].Dir == types.RecvOnly && valueName(fn, sel.States[k].Chan) == ch {
+				out[b.Succs[0]] = true
+			}
+		}
+	}
+	return out
 }
